@@ -120,12 +120,26 @@ class ClassVal:
         return "<ClassVal %s>" % self.name
 
 
+def born(obj):
+    """creation serial of a heap object (lists, sets, dicts, instances): lets a loop tell the objects that existed before it"""
+    obj._born = getattr(CTX, "births", 0)
+    CTX.births = obj._born + 1
+
+
+def note_write(obj):
+    """an in-place change of a heap object (dynamic frame check of loops, interp._frame_check)"""
+    w = getattr(CTX, "writes", None)
+    if w is not None:
+        w.append(obj)
+
+
 class VObj:
     _ids = 0
 
     def __init__(self, cls, fields=None):
         self.cls = cls
         self.fields = fields if fields is not None else {}
+        born(self)
 
     def __repr__(self):
         return "<VObj %s %s>" % (self.cls.name, list(self.fields))
@@ -168,6 +182,7 @@ class VDict:
         self._d = dict(d or {})
         self._sym = []
         self.abstract = False  # abstract: changed in place by a loop whose contract says nothing about it
+        born(self)
 
     def _content(self, what):
         if self.abstract:
@@ -183,6 +198,7 @@ class VSet:
     def __init__(self, items=None):
         self.items = list(items or [])
         self.abstract = False  # abstract: nothing is known about the elements (membership, length, truth: out of subset)
+        born(self)
 
 
 NONE_SENTINEL = z3.Int("py_None_sentinel")
@@ -395,6 +411,7 @@ class VList:
         self.length = length
         self.arr = arr
         self.kind = kind
+        born(self)
 
     # -- constructors
     @staticmethod
@@ -479,6 +496,7 @@ class VList:
 
     def set(self, i, v):
         j = self._norm_index(i)
+        note_write(self)
         if self.items is not None:
             if isinstance(j, int):
                 self.items[j] = v
@@ -493,6 +511,7 @@ class VList:
     __getitem__ = get
 
     def append(self, v):
+        note_write(self)
         if self.items is not None:
             self.items.append(v)
         else:
@@ -501,6 +520,7 @@ class VList:
 
     def extend(self, other_items):
         """other_items: python list of values or a VList"""
+        note_write(self)
         if isinstance(other_items, VList):
             if other_items.items is not None:
                 other_items = other_items.items
